@@ -424,9 +424,9 @@ class TlGenerator:
         with open(file_path, 'r') as f:
             temp = ''
             for line in f:
-                stripped = line.strip()
+                stripped = line.split('//')[0].strip()  # a comment ends at the end of its line
 
-                if not stripped or stripped.startswith('//') or stripped.startswith('---'):
+                if not stripped or stripped.startswith('---'):
                     continue
                 if ';' not in stripped:
                     temp += stripped + ' '
